@@ -9,7 +9,9 @@ edited token is preserved byte for byte. Comment lines and blank lines have no s
 
 The last three operators (`join-lines`, `join-lines-flush`, `split-line`) move a line end. Unlike the others they do not always
 leave the language (two comment lines joined are one comment; a comment split before a `#` is two comments): for them the
-language model (`Parser.parse`) says which of their results are ill-formed (`Op.arbitrated`).
+language model (`Parser.parse`) says which of their results are ill-formed (`Op.arbitrated`). The same holds for the near-miss
+operators `near-miss-spacing`, `respace`, `near-miss-word`, which build almost-legal texts from the legal spellings: white space
+between two tokens is trivia, inside the one terminal `not in` / `not equals` it is not.
 -/
 import SymbolVerif.Model.Cats.Lexer
 namespace SymbolVerif.Cats.Corrupt
@@ -33,16 +35,19 @@ inductive Op where
   | joinLines           -- the line end between two lines removed, the indentation of the second line kept
   | joinLinesFlush      -- the same, the indentation of the second line removed as well
   | splitLine           -- a line end inserted inside a line, in front of a token
+  | nearMissSpacing     -- a legal two-word spelling with its blank removed, doubled or turned into a tab (`notin`, `not  in`)
+  | respace             -- the same at every gap between two tokens; a blank inserted where there is none (`make_const (`)
+  | nearMissWord        -- a legal word in another case, truncated, or doubled
   deriving DecidableEq, Repr, Inhabited
 
 def Op.all : List Op :=
   [.badWidth, .wrongCase, .oneCharName, .unknownKeyword, .unknownAttribute, .unknownTransform, .unknownCondOp,
    .missingOperand, .missingBracket, .missingEquals, .missingFinalNewline, .dedentedMember, .emptyStruct, .wrongArity,
-   .joinLines, .joinLinesFlush, .splitLine]
+   .joinLines, .joinLinesFlush, .splitLine, .nearMissSpacing, .respace, .nearMissWord]
 
 /-- operators whose results are not all ill-formed: the language model decides for each result -/
 def Op.arbitrated : Op → Bool
-  | .joinLines | .joinLinesFlush | .splitLine => true
+  | .joinLines | .joinLinesFlush | .splitLine | .nearMissSpacing | .respace | .nearMissWord => true
   | _ => false
 
 def Op.name : Op → String
@@ -53,6 +58,7 @@ def Op.name : Op → String
   | .missingFinalNewline => "missing-final-newline" | .dedentedMember => "dedented-member"
   | .emptyStruct => "empty-struct" | .wrongArity => "wrong-arity"
   | .joinLines => "join-lines" | .joinLinesFlush => "join-lines-flush" | .splitLine => "split-line"
+  | .nearMissSpacing => "near-miss-spacing" | .respace => "respace" | .nearMissWord => "near-miss-word"
 
 def Op.ofName (s : String) : Option Op := Op.all.find? (·.name = s)
 
@@ -103,6 +109,17 @@ def flagAttributes : List String := ["is_aligned", "is_size_implicit", "is_bitwi
 def variadicAttributes : List String := ["discriminator", "comparer"]
 
 def isOneOf (t : Chars) (names : List String) : Bool := names.any fun n => tokIs t n
+
+/-- the spellings of the grammar that consist of two words -/
+def twoWordSpellings : List (String × String) :=
+  [("not", "in"), ("not", "equals"), ("not", "pad_last"), ("abstract", "struct"), ("inline", "struct")]
+
+/-- every word the grammar spells out -/
+def legalWords : List String :=
+  ["using", "struct", "enum", "import", "abstract", "inline", "make_const", "make_reserved", "sizeof", "array", "binary_fixed",
+   "if", "equals", "in", "not", "pad_last", "ripemd_keccak_256", "__value__", "__FILL__",
+   "is_aligned", "is_size_implicit", "is_bitwise", "is_byte_constrained", "size", "initializes", "discriminator", "comparer",
+   "alignment", "sort_key", "sizeref"] ++ ["uint8", "uint16", "uint32", "uint64", "int8", "int16", "int32", "int64"]
 
 def upperChar (c : Char) : Char := if isLower c then Char.ofNat (c.toNat - 32) else c
 def lowerChar (c : Char) : Char := if isUpper c then Char.ofNat (c.toNat + 32) else c
@@ -245,6 +262,29 @@ def lineVariants (op : Op) (line : Chars) : List Chars :=
         match findSig sig ")" with
         | some b => match sig[b]? with | some (jb, _) => [replaceAt toks jb [", zz".toList, ")".toList]] | none => []
         | none => []
+  | .nearMissSpacing =>
+    -- the blank(s) between the two words of a two-word spelling: removed, two blanks, a tab
+    (enumFrom 0 toks).flatMap fun (j, t) =>
+      if j ≥ 1 && isWsTok t &&
+          twoWordSpellings.any (fun (a, b) => ((toks[j - 1]?).map fun x => tokIs x a).getD false && ((toks[j + 1]?).map fun x => tokIs x b).getD false)
+      then [replaceAt toks j [], replaceAt toks j [[' ', ' ']], replaceAt toks j [['\t']]]
+      else []
+  | .respace =>
+    -- every gap between two tokens of the line (not the indentation, not what follows the last token)
+    (enumFrom 0 toks).flatMap fun (j, t) =>
+      if j == 0 || j + 1 ≥ toks.length then []
+      else if isWsTok t then
+        if ((toks[j - 1]?).map fun x => !isWsTok x).getD false then
+          [replaceAt toks j [], replaceAt toks j [[' ', ' ']], replaceAt toks j [['\t']]]
+        else []
+      else if ((toks[j - 1]?).map fun x => !isWsTok x).getD false then [replaceAt toks j [[' '], t]]
+      else []
+  | .nearMissWord =>
+    (enumFrom 0 toks).flatMap fun (j, t) =>
+      if isOneOf t legalWords then
+        [replaceAt toks j [match t with | a :: rest => upperChar a :: rest | [] => []], replaceAt toks j [t.map upperChar],
+         replaceAt toks j [t.dropLast], replaceAt toks j [t ++ t]]
+      else []
   | _ => []
 
 /-! ## document-level operators -/
